@@ -5,6 +5,8 @@ pub mod chain;
 pub mod chain13;
 pub mod chainmc;
 pub mod chanfsm;
+#[cfg(vls_verif)]
+pub mod concur;
 pub mod ev;
 pub mod keysrel;
 pub mod kvvmc;
